@@ -591,7 +591,14 @@ func execSession(x *fw.Ctx, c Case) {
 	nforms := len(a.Steps)
 	s1 := dir + "/s1.lisp"
 	s2 := dir + "/s2.lisp"
-	a.Steps = append(a.Steps, Step{Op: "snapshot", Margin: m, Path: s1, Again: (m+len(c.Items))%3 == 0})
+	bind := ""
+	if k := m + 2*len(c.Items); k%4 == 1 {
+		// the user saves from inside a binding of printer variables
+		binds := []string{"(*print-base* 16)", "(*print-radix* t)", "(*print-length* 2)", "(*print-level* 1)", "(*print-escape* nil)",
+			"(*print-readably* nil)", "(*print-case* :upcase)", "(*print-base* 2) (*print-radix* t)", "(*print-array* nil)", "(*print-pretty* nil)"}
+		bind = binds[k/4%len(binds)]
+	}
+	a.Steps = append(a.Steps, Step{Op: "snapshot", Margin: m, Path: s1, Again: (m+len(c.Items))%3 == 0, Bind: bind})
 	var probes []pref
 	for i, it := range c.Items {
 		for k, p := range it.Probes {
